@@ -336,4 +336,209 @@ theorem compareTop_tr_ck (cfg : Cfg) (hd : cfg.direct = false) (hl : LeafTransfo
       | _ => simp [compareTop, mapT]
   | _ => cases b <;> simp [compareTop, mapT]
 
+/-! ### a syntactic criterion for `IdxBlind`: no transform pattern contains the character `]`
+
+The parts of a rendered path are `key[i][j]…`; replacing one index segment `[i]<>[j]` by `[i]` or `[j]` changes one part
+only, and that part contains `]` before and after.  A pattern part without `]` is `*` (matches both) or a text that
+equals neither (case folding neither creates nor removes a `]`). -/
+
+theorem trck_lower_bracket_aux : ∀ n < 91, 65 ≤ n → Char.ofNat (n + 32) ≠ ']' := by decide
+
+theorem trck_lower_bracket (c : Char) (h : Py.toLowerAscii c = ']') : c = ']' := by
+  unfold Py.toLowerAscii at h
+  split at h
+  · rename_i hc
+    simp only [Bool.and_eq_true, decide_eq_true_eq] at hc
+    have h1 : 65 ≤ c.toNat := hc.1
+    have h2 : c.toNat ≤ 90 := hc.2
+    exact absurd h (trck_lower_bracket_aux c.toNat (by omega) h1)
+  · exact h
+
+/-- a text without `]` does not equal, case-insensitively, a text with `]` -/
+theorem trck_lower_ne {p a : Str} (hp : ']' ∉ p) (ha : ']' ∈ a) : Py.lower p ≠ Py.lower a := by
+  intro he
+  have h1 : ']' ∈ Py.lower a := by
+    simp only [Py.lower, List.mem_map]
+    exact ⟨']', ha, by decide⟩
+  rw [← he] at h1
+  simp only [Py.lower, List.mem_map] at h1
+  obtain ⟨c, hc, hcl⟩ := h1
+  exact hp (trck_lower_bracket c hcl ▸ hc)
+
+/-- two lists of parts that differ in one part only, which contains `]` on both sides -/
+def PartsBr (xs xs' : List Str) : Prop :=
+  ∃ (L : List Str) (a a' : Str) (T : List Str), xs = L ++ a :: T ∧ xs' = L ++ a' :: T ∧ ']' ∈ a ∧ ']' ∈ a'
+
+theorem trck_splitChar_ne_nil (c : Char) : ∀ s : Str, Py.splitChar c s ≠ []
+  | [] => by simp [Py.splitChar]
+  | x :: s => by
+    simp only [Py.splitChar]
+    split
+    · simp
+    · split <;> simp
+
+theorem trck_splitChar_mem (c : Char) : ∀ (s t : Str), t ∈ Py.splitChar c s → ∀ x ∈ t, x ∈ s
+  | [], t, ht, x, hx => by
+    simp only [Py.splitChar, List.mem_singleton] at ht
+    subst ht; exact hx
+  | y :: s, t, ht, x, hx => by
+    simp only [Py.splitChar] at ht
+    split at ht
+    · rcases List.mem_cons.1 ht with rfl | ht'
+      · cases hx
+      · exact List.mem_cons_of_mem _ (trck_splitChar_mem c s t ht' x hx)
+    · split at ht
+      · simp only [List.mem_singleton] at ht
+        subst ht
+        simp only [List.mem_singleton] at hx
+        subst hx; exact List.mem_cons_self
+      · rename_i h t' heq
+        rcases List.mem_cons.1 ht with rfl | ht'
+        · rcases List.mem_cons.1 hx with rfl | hx'
+          · exact List.mem_cons_self
+          · exact List.mem_cons_of_mem _ (trck_splitChar_mem c s h (heq ▸ List.mem_cons_self) x hx')
+        · exact List.mem_cons_of_mem _ (trck_splitChar_mem c s t (heq ▸ List.mem_cons_of_mem _ ht') x hx)
+
+/-- a text without the separator in front of `B` goes to the first part of `B` -/
+theorem trck_splitChar_nosep (c : Char) : ∀ (M : Str), (∀ x ∈ M, x ≠ c) → ∀ B : Str,
+    ∃ h t, Py.splitChar c B = h :: t ∧ Py.splitChar c (M ++ B) = (M ++ h) :: t
+  | [], _, B => by
+    cases hB : Py.splitChar c B with
+    | nil => exact absurd hB (trck_splitChar_ne_nil c B)
+    | cons h t => exact ⟨h, t, rfl, by simpa using hB⟩
+  | m :: M, hM, B => by
+    obtain ⟨h, t, e1, e2⟩ := trck_splitChar_nosep c M (fun x hx => hM x (List.mem_cons_of_mem _ hx)) B
+    refine ⟨h, t, e1, ?_⟩
+    have hm : m ≠ c := hM m List.mem_cons_self
+    simp only [List.cons_append, Py.splitChar, hm, if_false, e2]
+
+/-- a common prefix keeps the relation -/
+theorem trck_splitChar_prefix : ∀ (A X X' : Str), PartsBr (Py.splitChar '/' X) (Py.splitChar '/' X') →
+    PartsBr (Py.splitChar '/' (A ++ X)) (Py.splitChar '/' (A ++ X'))
+  | [], _, _, h => by simpa using h
+  | a :: A, X, X', h => by
+    obtain ⟨L, b, b', T, e1, e2, hb, hb'⟩ := trck_splitChar_prefix A X X' h
+    simp only [List.cons_append, Py.splitChar, e1, e2]
+    by_cases ha : a = '/'
+    · simp only [ha, if_true]
+      exact ⟨[] :: L, b, b', T, rfl, rfl, hb, hb'⟩
+    · simp only [ha, if_false]
+      cases L with
+      | nil => exact ⟨[], a :: b, a :: b', T, rfl, rfl, List.mem_cons_of_mem _ hb, List.mem_cons_of_mem _ hb'⟩
+      | cons l L' => exact ⟨(a :: l) :: L', b, b', T, rfl, rfl, hb, hb'⟩
+
+theorem trck_natDigitsAux_chars : ∀ (f n : Nat) (acc : List Char), ∀ c ∈ natDigitsAux f n acc,
+    c ∈ acc ∨ ∃ d, d < 10 ∧ c = Char.ofNat (48 + d)
+  | 0, _, _, c, hc => .inl (by simpa [natDigitsAux] using hc)
+  | f + 1, n, acc, c, hc => by
+    rw [natDigitsAux] at hc
+    split at hc
+    · rcases List.mem_cons.1 hc with rfl | h
+      · exact .inr ⟨n % 10, Nat.mod_lt _ (by decide), rfl⟩
+      · exact .inl h
+    · rcases trck_natDigitsAux_chars f (n / 10) _ c hc with h | h
+      · rcases List.mem_cons.1 h with rfl | h'
+        · exact .inr ⟨n % 10, Nat.mod_lt _ (by decide), rfl⟩
+        · exact .inl h'
+      · exact .inr h
+
+theorem trck_digit_noslash : ∀ d < 10, Char.ofNat (48 + d) ≠ '/' := by decide
+
+theorem trck_natStr_noslash (n : Nat) : ∀ c ∈ natStr n, c ≠ '/' := by
+  intro c hc
+  rcases trck_natDigitsAux_chars (n + 1) n [] c hc with h | ⟨d, hd, rfl⟩
+  · cases h
+  · exact trck_digit_noslash d hd
+
+/-- an index segment: its text has no `/` and contains `]` -/
+def isIdxSeg : PSeg → Bool | .key _ => false | _ => true
+
+theorem trck_idxSeg_noslash {s : PSeg} (hs : isIdxSeg s = true) : ∀ c ∈ renderSeg s, c ≠ '/' := by
+  intro c hc
+  cases s with
+  | key k => cases hs
+  | idx i =>
+    simp only [renderSeg, List.mem_cons, List.mem_append, List.not_mem_nil, or_false, or_assoc] at hc
+    rcases hc with rfl | h | rfl
+    · decide
+    · exact trck_natStr_noslash i c h
+    · decide
+  | idx2 i j =>
+    simp only [renderSeg, List.mem_cons, List.mem_append, List.not_mem_nil, or_false, or_assoc] at hc
+    rcases hc with rfl | h | rfl | rfl | rfl | rfl | h | rfl
+    · decide
+    · exact trck_natStr_noslash i c h
+    · decide
+    · decide
+    · decide
+    · decide
+    · exact trck_natStr_noslash j c h
+    · decide
+
+theorem trck_idxSeg_bracket {s : PSeg} (hs : isIdxSeg s = true) : ']' ∈ renderSeg s := by
+  cases s with
+  | key k => cases hs
+  | idx i => simp [renderSeg]
+  | idx2 i j => simp [renderSeg]
+
+/-- replacing one index segment by another changes one part of the rendered path, which has a `]` before and after -/
+theorem trck_render_parts (p : Path) (s s' : PSeg) (q : Path) (hs : isIdxSeg s = true) (hs' : isIdxSeg s' = true) :
+    PartsBr (Py.splitChar '/' (render (p ++ s :: q))) (Py.splitChar '/' (render (p ++ s' :: q))) := by
+  have e : ∀ z : PSeg, render (p ++ z :: q) = render p ++ (renderSeg z ++ render q) := by
+    intro z; simp [render, List.flatMap_append, List.flatMap_cons]
+  rw [e, e]
+  apply trck_splitChar_prefix
+  obtain ⟨h, t, e1, e2⟩ := trck_splitChar_nosep '/' (renderSeg s) (trck_idxSeg_noslash hs) (render q)
+  obtain ⟨h', t', e1', e2'⟩ := trck_splitChar_nosep '/' (renderSeg s') (trck_idxSeg_noslash hs') (render q)
+  rw [e1] at e1'
+  obtain ⟨rfl, rfl⟩ := List.cons.inj e1'
+  rw [e2, e2']
+  exact ⟨[], _, _, t, rfl, rfl, List.mem_append_left _ (trck_idxSeg_bracket hs), List.mem_append_left _ (trck_idxSeg_bracket hs')⟩
+
+theorem trck_matchParts_br : ∀ (ps : List Str), (∀ p ∈ ps, ']' ∉ p) → ∀ (T : List Str) (a a' : Str) (L : List Str),
+    ']' ∈ a → ']' ∈ a' → matchParts ps (T ++ a :: L) = matchParts ps (T ++ a' :: L)
+  | [], _, _, _, _, _, _, _ => by simp [matchParts]
+  | p :: ps, hps, T, a, a', L, ha, ha' => by
+    have hp : ']' ∉ p := hps p List.mem_cons_self
+    have hps' : ∀ z ∈ ps, ']' ∉ z := fun z hz => hps z (List.mem_cons_of_mem _ hz)
+    cases T with
+    | nil =>
+      simp only [matchParts, List.nil_append, trck_lower_ne hp ha, trck_lower_ne hp ha', ne_eq, not_false_eq_true, and_true]
+    | cons t T' =>
+      simp only [matchParts, List.cons_append]
+      rw [trck_matchParts_br ps hps' T' a a' L ha ha']
+
+theorem trck_matchOne_br (pat : Str) (hpat : ']' ∉ pat) (x x' : Str)
+    (h : PartsBr (Py.splitChar '/' x) (Py.splitChar '/' x')) : matchOne x pat = matchOne x' pat := by
+  obtain ⟨L, a, a', T, e1, e2, ha, ha'⟩ := h
+  unfold matchOne
+  rw [e1, e2]
+  simp only [List.reverse_append, List.reverse_cons, List.append_assoc, List.singleton_append]
+  apply trck_matchParts_br _ _ _ _ _ _ ha ha'
+  intro z hz
+  have hz' : z ∈ Py.splitChar '/' pat := by simpa using hz
+  exact fun hbr => hpat (trck_splitChar_mem '/' pat z hz' _ hbr)
+
+theorem trck_xpathMatchFrom_br (x x' : Str) (h : PartsBr (Py.splitChar '/' x) (Py.splitChar '/' x')) :
+    ∀ (pats : List Str) (n : Nat), (∀ p ∈ pats, ']' ∉ p) → xpathMatchFrom x n pats = xpathMatchFrom x' n pats
+  | [], _, _ => rfl
+  | p :: ps, n, hp => by
+    simp only [xpathMatchFrom, trck_matchOne_br p (hp p List.mem_cons_self) x x' h,
+      trck_xpathMatchFrom_br x x' h ps (n + 1) (fun z hz => hp z (List.mem_cons_of_mem _ hz))]
+
+/-- **no pattern contains `]` ⇒ `IdxBlind`**: a transform whose patterns name no list index does not tell `[i]`, `[j]`
+and `[i]<>[j]` apart, whatever the keys of the tree are -/
+theorem trck_idxBlind_of_noBracket (cfg : Cfg) (h : ∀ t ∈ cfg.tr, ']' ∉ t.pat) : TrIdxBlind cfg := by
+  have hp : ∀ z ∈ cfg.tr.map (·.pat), ']' ∉ z := by
+    intro z hz
+    obtain ⟨t, ht, rfl⟩ := List.mem_map.1 hz
+    exact h t ht
+  have key : ∀ (p : Path) (s s' : PSeg) (q : Path), isIdxSeg s = true → isIdxSeg s' = true →
+      transformAt cfg (p ++ s :: q) = transformAt cfg (p ++ s' :: q) := by
+    intro p s s' q hs hs'
+    unfold transformAt transformAtStr
+    rw [trck_xpathMatchFrom_br _ _ (trck_render_parts p s s' q hs hs') _ 0 hp]
+  intro p i j q
+  exact ⟨key p _ _ q rfl rfl, key p _ _ q rfl rfl⟩
+
 end N0.Compare
